@@ -1201,7 +1201,83 @@ def run_fit_large(case):
     return o
 
 
+# --------------------------------------------------------------------------
+# transformations constructed by the caller (as in the class documentation): any array dtype
+# --------------------------------------------------------------------------
+_SIGNED_PERMS = None
+
+
+def _proper_signed_permutations():
+    global _SIGNED_PERMS
+    if _SIGNED_PERMS is None:
+        import itertools
+
+        out = []
+        for perm in itertools.permutations(range(3)):
+            for signs in itertools.product([1, -1], repeat=3):
+                R = np.zeros((3, 3), dtype=int)
+                for r, (c, sg) in enumerate(zip(perm, signs)):
+                    R[r, c] = sg
+                if round(float(np.linalg.det(R))) == 1:
+                    out.append(R)
+        _SIGNED_PERMS = out
+    return _SIGNED_PERMS
+
+
+def st_direct_transform(tier):
+    return st.fixed_dictionaries(
+        {
+            "rot": st.integers(0, 23),
+            "rot_dtype": st.sampled_from(["int64", "int32", "float32", "float64"]),
+            "center": st.lists(st.sampled_from([0.0, 0.5, -1.25, 3.75, 10.0, -0.125]), min_size=3, max_size=3),
+            "target": st.lists(st.sampled_from([0.0, 0.5, -1.25, 3.75, 10.0, -0.125]), min_size=3, max_size=3),
+            "trans_dtype": st.sampled_from(["float64", "float32", "int64"]),
+            "n": st.integers(1, 6),
+            "seed": st.integers(0, 2**31 - 1),
+            "coord_dtype": st.sampled_from(["float32", "float64", "int64"]),
+        }
+    )
+
+
+def run_direct_transform(case):
+    import biotite.structure as struc
+
+    o = Outcome()
+    R = _proper_signed_permutations()[case["rot"]]
+    c = np.array(case["center"], dtype=np.float64)
+    t = np.array(case["target"], dtype=np.float64)
+    if case["trans_dtype"] == "int64":
+        c, t = np.round(c), np.round(t)
+    rng = np.random.default_rng(case["seed"])
+    X = np.round(rng.normal(0, 5, (case["n"], 3)) * 4) / 4  # multiples of 0.25: exact in float32
+    tr = struc.AffineTransformation(c.astype(case["trans_dtype"]), R.astype(case["rot_dtype"]), t.astype(case["trans_dtype"]))
+    coords = X.astype(case["coord_dtype"]) if case["coord_dtype"] != "int64" else np.round(X).astype(np.int64)
+    Xv = coords.astype(np.float64)
+    want = (Xv + c) @ R.T.astype(np.float64) + t
+    got = np.asarray(tr.apply(coords), dtype=np.float64)
+    o.label("rot=" + case["rot_dtype"], "trans=" + case["trans_dtype"], "coord=" + case["coord_dtype"])
+    o.check(got.shape == want.shape and np.allclose(got, want, atol=1e-4), "transformation_reproduces_fitted", lambda: f"apply(): got {got.tolist()}, want R(x+c)+t = {want.tolist()}")
+    M = np.asarray(tr.as_matrix(), dtype=np.float64)
+    if o.check(M.shape[-2:] == (4, 4), "matrix_form", f"as_matrix() shape {M.shape}"):
+        M4 = M.reshape(-1, 4, 4)[0]
+        hom = np.concatenate([Xv, np.ones((len(Xv), 1))], axis=1)
+        via = (hom @ M4.T)[:, :3]
+        o.check(np.allclose(via, want, atol=1e-4), "matrix_form", lambda: f"as_matrix() applied to homogeneous coordinates {via.tolist()} != apply() {want.tolist()} (rotation dtype {case['rot_dtype']})")
+        o.check(np.allclose(M4[3], [0, 0, 0, 1]), "matrix_form", f"last row {M4[3].tolist()}")
+    o.mark_nontrivial(case["rot_dtype"].startswith("int") and any(v != round(v) for v in list(c) + list(t)))
+    return o
+
+
 SUBS = [
+    Sub(
+        "direct_transform",
+        st_direct_transform,
+        run_direct_transform,
+        quick=600,
+        thorough=20000,
+        rule="integer-dtype rotation (as in the class documentation) with fractional translations",
+        clauses="a transformation built by the caller: apply() == R(x+c)+t == 4x4 matrix form, for every array dtype",
+    ),
     Sub(
         "fit",
         st_fit,
